@@ -37,6 +37,7 @@ type txWorld struct {
 	kids   []*child
 	ver    int64
 	nested bool
+	cut    bool // the model no longer determines the state: judge nothing further, do not extend
 }
 
 type txEvent struct {
@@ -259,7 +260,17 @@ func (w *txWorld) apply(e txEvent, c txConfig, judge bool) (fail string) {
 				return fmt.Sprintf("merge of a child with the parent's root returned %v", err)
 			}
 			bMustBeUntouched = true
-		case bytes.Equal(k.startRoot, bRoot) && !k.broken:
+		case k.broken:
+			// an operation of this child failed while the parent was elsewhere (the parent physically
+			// removes its own superseded nodes): the child's content is not defined by the property.
+			// Whatever the merge decides, the exploration does not continue from here.
+			w.cut = true
+			if err != nil {
+				bMustBeUntouched = true
+			} else {
+				w.model = nil
+			}
+		case bytes.Equal(k.startRoot, bRoot):
 			if err != nil {
 				return fmt.Sprintf("merge of an up-to-date child was rejected: %v", err)
 			}
@@ -410,6 +421,9 @@ func runTx(rep *rt.Report, c txConfig, deadline time.Time) {
 					return seq.Outcome{Verdict: seq.Violation, Msg: f}
 				}
 			}
+			if w.cut {
+				return seq.Outcome{Cut: true}
+			}
 			k := w.key() // before observation: observation fills caches
 			if f := w.observe(c); f != "" {
 				return seq.Outcome{Verdict: seq.Violation, Msg: f}
@@ -434,6 +448,8 @@ func C03(tier rt.Tier) int {
 			{name: "prefixfree-2children", initial: map[string]string{"0a1b": "p", "0b22": "p"}, paths: pfPaths[:5], vals: []string{"x"}, children: 2, opsPerKid: 2, directOps: true, depth: 5},
 			{name: "nested-2children-pnodedb", persistent: true, initial: map[string]string{"aa": "p", "aaab": "p"}, paths: nested[:6], vals: []string{"x"}, children: 2, opsPerKid: 2, directOps: false, depth: 6},
 			{name: "empty-base-1child", initial: nil, paths: pfPaths, vals: []string{"x", "y"}, children: 1, opsPerKid: 3, directOps: true, depth: 5},
+			// a child that overwrites and then restores what an earlier write of the same block created, plus one more change
+			{name: "restore-within-block", initial: map[string]string{"0b22": "p"}, paths: pfPaths[:2], vals: []string{"x", "y"}, children: 1, opsPerKid: 3, directOps: true, depth: 7},
 		}
 	} else {
 		per = 6 * time.Minute
